@@ -247,13 +247,23 @@ def refusal_scenarios(run, rng, n):
 
 
 def update_bs_scenarios(run):
-    """the known finding C01-update-batch-size-nested in its 2- and 3-level forms (fingerprints start with `update_bs:`)"""
+    """update(update_batch_size=True): the 2- and 3-level forms of the repaired defect d11e6ff, and the refused call that had already
+    resized a nested tensordict (fingerprints start with `update_bs:`)"""
     from tensordict import TensorDict
     cases = {
         "2-level": (lambda: TensorDict({"c": TensorDict({"a": torch.zeros(3, 1)}, [3, 1]), "a": torch.zeros(3, 1)}, [3, 1]),
                     lambda: TensorDict({"c": TensorDict({"c": torch.zeros(1, 1, 3), "a": torch.zeros(1, 0, 0)}, [1])}, [])),
         "3-level": (lambda: TensorDict({"mid": TensorDict({"leaf": TensorDict({"x": torch.zeros(3)}, [3])}, [3])}, [3]),
                     lambda: TensorDict({"mid": TensorDict({"leaf": TensorDict({"x": torch.zeros(4)}, [4])}, [])}, [])),
+        # a later entry is refused AFTER a nested tensordict was already given the batch size of the source (seed 14 of round 2)
+        "refused-after-resize": (lambda: TensorDict({"b": torch.zeros(0, 3, 0, 0), "a": TensorDict({}, [0, 3]),
+                                                     "e": TensorDict({"x": torch.zeros(0, 3, 1)}, [0, 3])}, [0, 3]),
+                                 lambda: TensorDict({"a": TensorDict({}, [3]), "e": TensorDict({"x": torch.zeros(3, 1)}, [3]),
+                                                     "b": torch.zeros(())}, [])),
+        "refused-below-after-resize": (lambda: TensorDict({"e": TensorDict({"x": TensorDict({"q": torch.zeros(0, 3, 1)}, [0, 3]),
+                                                                            "k": torch.zeros(0, 3)}, [0, 3])}, [0, 3]),
+                                       lambda: TensorDict({"e": TensorDict({"x": TensorDict({"q": torch.zeros(3, 1)}, [3]),
+                                                                            "zz": torch.zeros(())}, [])}, [])),
     }
     for name, (mk_dest, mk_src) in cases.items():
         dest, src = mk_dest(), mk_src()
@@ -288,6 +298,18 @@ def lazy_root(rng):
     if rng.random() < 0.3:
         for m in members:
             m.set("nt", NonTensorData("s", batch_size=mbs))
+    if rng.random() < 0.3:
+        # heterogeneous keys: some members have an entry the others do not have
+        for m in members[1:]:
+            if rng.random() < 0.6:
+                m.set(rng.choice(["h", "a2"]), torch.zeros(mbs + [1]))
+        if rng.random() < 0.5:
+            members[0].del_("b")
+    if rng.random() < 0.15:
+        # a stack of stacks
+        inner = [LazyStackedTensorDict.lazy_stack([m.clone() for _ in range(2)], rng.randint(0, len(mbs))) for m in members]
+        members = inner
+        mbs = list(members[0].batch_size)
     dim = rng.randint(0, len(mbs))
     ls = LazyStackedTensorDict.lazy_stack(members, dim)
     if rng.random() < 0.3 and ls.batch_dims:
@@ -415,7 +437,7 @@ def root_streams(run, rng, n):
                 if viol:
                     run.oracle_fail("walk-ext", {"container": kind, "history": hid, "step": stepno, "op": name, "batch_size": list(root.batch_size) if not viol[0].startswith("cannot") else None},
                                     f"after {name} ({out}): " + "; ".join(viol[:3]),
-                                    f"{kind}:names-mismatch" if all("cannot be read" in v for v in viol) else f"{kind}:{name}:{out}")
+                                    f"{kind}:names-mismatch:{name}:{out}" if all("cannot be read" in v for v in viol) else f"{kind}:{name}:{out}")
                     break
                 run.oracle_ok("walk-ext")
 
